@@ -183,7 +183,7 @@ func runProperty(P *Program, prop *Property, known KnownFile) (res RunResult) {
 				rr.Notes++
 			}
 		}
-		if rr.Obligations < r.Floor {
+		if rr.Obligations < r.Floor && rr.Violations == 0 { // a rule that reports a violation does not pass vacuously
 			res.Broken = append(res.Broken, fmt.Sprintf("%s: matched %d sites, below the floor of %d confirmed on the pinned tree (the rule would pass vacuously)", r.ID, rr.Obligations, r.Floor))
 		}
 		res.Rules = append(res.Rules, rr)
